@@ -58,7 +58,8 @@ def run_case(ctx, doc, codes, vcs, scs, workers, r, d):
     problems = []
     if gt.shape != want.shape or not (gt == want).all():
         problems.append("call_genotype")
-    if not (root["call_genotype_mask"][:] == (want == -1)).all():
+    mask = root["call_genotype_mask"][:]
+    if mask.shape != want.shape or not (mask == (want == -1)).all():
         problems.append("call_genotype_mask")
     if root["call_genotype_phased"][:].any() or root["call_genotype_phased"].shape != (m, n):
         problems.append("call_genotype_phased")
